@@ -356,7 +356,7 @@ Definition block_wf {A} (nrows : nat) (b : block A) : bool :=
   end.
 Definition frame_wf {A} (nrows : nat) (blocks : list (block A)) : bool := forallb (block_wf nrows) blocks.
 
-(* the defect of the backward walk when cf = false (see Refuted/C14.v): the bridging count leaving a 2-D block is taken from the LAST
+(* the defect of the backward walk when cf = false (the code before /repo 690a4f3; witness: Proofs/MissingRows.v old_decision_needs_guard): the bridging count leaving a 2-D block is taken from the LAST
    yielded slice, but backward the block is left through its FIRST column.  The refinement holds for a row when, in
    every 2-D block, either no limit applies, or the first cell is present, or first and last yielded slice are equally long. *)
 Definition bwd_block_dom {A} (cf : bool) (limit : Z) (b : rblock A) : bool :=
